@@ -20,7 +20,8 @@
 (***************************************************************************)
 EXTENDS Prt
 CONSTANTS Slots, Items, MaxBins
-ItemVal(it) == IF it >= 100 THEN 0 ELSE it        \* items >= 100 are zero-valued
+\* item 100 is zero-valued; item 101 is worth 2^24 + 1 (a sum kept in single precision cannot hold it); the others are worth their id
+ItemVal(it) == IF it = 101 THEN 16777217 ELSE IF it >= 100 THEN 0 ELSE it
 VARIABLES v, live, keep
 bvars == <<v, live, keep>>
 
